@@ -1,5 +1,5 @@
 (* C16/Properties.v — property theorems only. Each is closed by a lemma of C16/Proofs.v (or C16/Tlv.v). *)
-From Relic Require Import Base.Prelude Base.Enc Generated.C16_gen C16.Model C16.Tlv C16.Proofs.
+From Relic Require Import Base.Prelude Base.Enc Generated.C16_gen C16.Model C16.Tlv C16.Proofs C16.VModel C16.VProofs.
 
 (* 1. Unmarshal, Marshal, Unmarshal: whatever pkcs7.Unmarshal accepts is emitted in a form it accepts again, with the same
       signed regions (encapsulated content info, certificates, tbsCertList of every CRL, every SignerInfo), and emitting
@@ -161,4 +161,218 @@ Example builder_sign_twice_violates_rfc5652 :
   match sign_preimage (fst (sign_attrs b)) with Ok (1, p) => spec_attrs_ok (b_ctype b) (b_digest b) p = false | _ => False end.
 Proof. vm_compute. reflexivity. Qed.
 Example ber_sample_rejected : parse_cms [48;128;6;9;42;134;72;134;247;13;1;7;2;160;128;0;0;0;0] = Err E_INDEF.
+Proof. vm_compute. reflexivity. Qed.
+
+(* ====================================================================================================================
+   WHICH byte string is digested and checked against a signature (lib/pkcs7 SignerInfo.Verify, AuthenticatedAttributesBytes,
+   AttributeList.Bytes; lib/pkcs9 Verify, finishVerify, MessageImprint.Verify).  The models are the INTERPRETATION of the
+   statement-level translation of the Go bodies (Generated/C16_gen.v, the prog_ definitions); cryptography is a parameter C : crypto. *)
+
+(* 11. the interpretation of each translated body is its reference function, for all primitives, hooks and inputs: the
+       reference functions of VModel.v (Part 8) say what the source says NOW; a changed operator, operand, argument, branch,
+       early return or an extra check in the Go code changes the generated term and these equalities must be re-proved *)
+Theorem si_verify_follows_source : forall P K s content skip certs,
+  run_si_verify P K s (Wby content) skip certs = ref_si_verify P K s content skip certs.
+Proof. exact C16.VProofs.si_verify_eq. Qed.
+Theorem has_empty_follows_source : forall P K s, run_has_empty P K s = ref_has_empty P s.
+Proof. exact C16.VProofs.has_empty_eq. Qed.
+Theorem ci_bytes_follows_source : forall P K c, run_ci_bytes P K c = ref_ci_bytes P c.
+Proof. exact C16.VProofs.ci_bytes_eq. Qed.
+Theorem sd_verify_follows_source : forall P K sd ext skip, run_sd_verify P K sd (ext_val ext) skip = ref_sd_verify P K sd ext skip.
+Proof. exact C16.VProofs.sd_verify_eq. Qed.
+Theorem aab_follows_source : forall P K s, run_aab P K s = ref_aab P K s.
+Proof. exact C16.VProofs.aab_eq. Qed.
+Theorem attrs_bytes_follows_source : forall P K o, run_attrs_bytes P K o = lift_bytes (p_marshal_attrs P o).
+Proof. exact C16.VProofs.attrs_bytes_eq. Qed.
+Theorem imprint_follows_source : forall P K a hashed data, run_imprint P K a hashed (Wby data) = ref_imprint P a hashed data.
+Proof. exact C16.VProofs.imprint_eq. Qed.
+Theorem ts_finish_follows_source : forall P K s blob certs h t certErr,
+  run_finish P K s (blob_val blob) certs h (Wti t) certErr = ref_ts_finish P K s (blob_val blob) certs h (Wti t) certErr.
+Proof. exact C16.VProofs.finish_eq. Qed.
+Theorem ts_verify_follows_source : forall P K tok data certs, run_ts_verify P K tok (Wby data) certs = ref_ts_verify P K tok data certs.
+Proof. exact C16.VProofs.ts_verify_eq. Qed.
+(* the interpreted AuthenticatedAttributesBytes is the function theorems 6 and 7 are about *)
+Theorem aab_interpreted_is_aab : forall C s b, aab_m C s = Ok b <-> aab s = Ok b.
+Proof. exact C16.VProofs.aab_m_ok. Qed.
+
+(* 12. exactly one digest is ever handed to a signature check: the primary check and, only when that answers
+       rsa.ErrVerification, the same digest again without the DigestInfo wrapper *)
+Theorem one_digest_decides : forall C c s d,
+  signature_accepted C c s d <->
+  c_pkix C (ce_pub c) (si_dalg s) (si_ealg s) d (si_sig s) = SigOk \/
+  (c_pkix C (ce_pub c) (si_dalg s) (si_ealg s) d (si_sig s) = SigRsaErr /\ c_raw C (ce_pub c) 0 d (si_sig s) = SigOk).
+Proof. exact C16.VProofs.signature_accepted_iff. Qed.
+
+(* 13. PARSED SignerInfo with (non-empty) signed attributes, ALL inputs, ALL crypto: an accepting Verify has checked the
+       signature against the digest of exactly the [0] field as it stands in the received SignerInfo — which Marshal emits
+       again verbatim — with its first octet replaced by 0x31 (= the RFC 5652 5.4 preimage of the EMITTED bytes), and, unless
+       digests are skipped, the message-digest attribute equals the digest of the content *)
+Theorem verify_parsed_digests_emitted : forall C t s a l content skip certs c,
+  valid t -> t_tag t = T_SEQ -> parse_si t = Ok s -> si_auth s = Some (a :: l) ->
+  si_verify C s (Wby content) skip certs = VAccept c ->
+  exists h pre tl post,
+    c_hash_of C (si_dalg s) = Some h /\
+    emit_si s = t_full t /\ t_body t = pre ++ (160 :: tl) ++ post /\
+    spec_si_preimage (emit_si s) content = Some (true, 49 :: tl) /\
+    find_cert certs (si_issuer s) (si_serial s) = Some c /\
+    signature_accepted C c s (c_H C h (49 :: tl)) /\
+    (skip = false -> get_one (a :: l) OID_message_digest = Ok (c_H C h content)).
+Proof. exact C16.VProofs.verify_parsed_digests_emitted. Qed.
+
+(* 14. no other encoding of the same attributes can make Verify accept: if the signature does not check against the digest
+       of the RFC 5652 preimage of the EMITTED bytes, Verify rejects — whatever the signature primitives answer on any other
+       digest (the sorted DER SET OF, a re-encoding of the parsed list, another order, the content digest) *)
+Theorem other_encodings_cannot_help : forall C t s a l content skip certs h p,
+  valid t -> t_tag t = T_SEQ -> parse_si t = Ok s -> si_auth s = Some (a :: l) ->
+  spec_si_preimage (t_full t) content = Some (true, p) -> c_hash_of C (si_dalg s) = Some h ->
+  (forall c, ~ signature_accepted C c s (c_H C h p)) ->
+  forall c, si_verify C s (Wby content) skip certs <> VAccept c.
+Proof. exact C16.VProofs.other_encodings_cannot_help. Qed.
+
+(* 15. ... and a signature over the as-emitted bytes IS accepted (hash known, message-digest consistent, certificate there) *)
+Theorem verify_accepts_as_emitted : forall C s content skip certs c h md ab,
+  c_hash_of C (si_dalg s) = Some h -> opt_list (si_auth s) <> [] ->
+  get_one (opt_list (si_auth s)) OID_message_digest = Ok md -> (skip = false -> md = c_H C h content) ->
+  aab s = Ok ab -> find_cert certs (si_issuer s) (si_serial s) = Some c -> signature_accepted C c s (c_H C h ab) ->
+  si_verify C s (Wby content) skip certs = VAccept c.
+Proof. exact C16.VProofs.si_verify_accepts. Qed.
+
+(* 16. SignerInfo BUILT by relic (the self check of TimestampAndMarshal runs on it): the digest checked is that of the
+       emitted [0] field with first octet 0x31 *)
+Theorem verify_built_digests_emitted : forall C s a l content skip certs c,
+  si_raw s = [] -> si_auth s = Some (a :: l) ->
+  si_verify C s (Wby content) skip certs = VAccept c ->
+  exists h tl, c_hash_of C (si_dalg s) = Some h /\ auth_field s = 160 :: tl /\ subslice (auth_field s) (emit_si s) /\
+    find_cert certs (si_issuer s) (si_serial s) = Some c /\ signature_accepted C c s (c_H C h (49 :: tl)).
+Proof. exact C16.VProofs.verify_built_digests_emitted. Qed.
+
+(* 17. without signed attributes (field absent — or present but EMPTY, see 18) the signature is checked against the
+       content digest *)
+Theorem verify_without_attrs : forall C s content certs c,
+  opt_list (si_auth s) = [] -> si_verify C s (Wby content) false certs = VAccept c ->
+  exists h, c_hash_of C (si_dalg s) = Some h /\ signature_accepted C c s (c_H C h content).
+Proof. exact C16.VProofs.verify_without_attrs. Qed.
+
+(* 18. the dichotomy (relic fixes daed528 and b8abb42 included), for EVERY accepted SignerInfo: an accepting Verify with digests
+       checked means EITHER there is no [0] field and the signature is over the content digest, OR the field holds at least one
+       attribute and the signature is over exactly the emitted field re-tagged; an EMPTY field is refused, whatever follows
+       inside the SignerInfo *)
+Theorem verify_accept_dichotomy : forall C t s content certs c,
+  valid t -> t_tag t = T_SEQ -> parse_si t = Ok s ->
+  si_verify C s (Wby content) false certs = VAccept c ->
+  exists h, c_hash_of C (si_dalg s) = Some h /\
+    ((si_auth s = None /\ spec_si_preimage (emit_si s) content = Some (false, content) /\ signature_accepted C c s (c_H C h content)) \/
+     (exists a l tl, si_auth s = Some (a :: l) /\ spec_si_preimage (emit_si s) content = Some (true, 49 :: tl) /\
+                     subslice (160 :: tl) (emit_si s) /\ signature_accepted C c s (c_H C h (49 :: tl)))).
+Proof. exact C16.VProofs.verify_accept_dichotomy. Qed.
+Theorem verify_empty_attrs_rejected : forall C t s content skip certs,
+  valid t -> t_tag t = T_SEQ -> parse_si t = Ok s -> si_auth s = Some [] ->
+  forall c, si_verify C s (Wby content) skip certs <> VAccept c.
+Proof. exact C16.VProofs.verify_empty_attrs_rejected. Qed.
+(* 18b. regression: the two inputs that refuted 18 before the fixes — A0 00 signed over the content digest, and the same with a
+        truncated element (04 05 00) behind the signature value — are refused by the code as it is now *)
+Theorem former_witnesses_are_refused :
+  parse_si (tlv_of empty_attrs_si0) = Ok (si_of empty_attrs_si0) /\ si_auth (si_of empty_attrs_si0) = Some [] /\
+  si_verify (witness_crypto witness_content) (si_of empty_attrs_si0) (Wby witness_content) false [cert_of empty_attrs_si0] = VReject EV_NEW /\
+  parse_si (tlv_of empty_attrs_si) = Ok (si_of empty_attrs_si) /\ si_auth (si_of empty_attrs_si) = Some [] /\
+  read_all (t_body (tlv_of empty_attrs_si)) = Err E_TRUNC /\
+  si_verify (witness_crypto witness_content) (si_of empty_attrs_si) (Wby witness_content) false [cert_of empty_attrs_si] = VReject EV_NEW.
+Proof. exact C16.VProofs.former_witnesses_are_refused. Qed.
+
+(* 19. pkcs9.Verify: an accepted timestamp token has exactly one SignerInfo, its imprint is the digest of the data, and THAT
+       SignerInfo's Verify — digests NOT skipped — accepted over the eContent octets of the token (so 13 applies to it) *)
+Theorem ts_verify_checks_the_token_signer : forall C tok data certs s c h t,
+  ts_verify C tok (Wby data) certs = TsAccept s c h t ->
+  exists sd ti blob certs',
+    o_sd tok = Some sd /\ sd_sis sd = [s] /\ c_tstinfo C tok = Ok ti /\
+    (exists hi, c_hash_of C (ti_alg ti) = Some hi /\ c_H C hi data = ti_hashed ti) /\
+    ci_bytes (ci_raw (sd_ci sd)) = Ok blob /\
+    si_verify C s (blob_val blob) false certs' = VAccept c.
+Proof. exact C16.VProofs.ts_verify_accept_inv. Qed.
+
+(* 20. SignedData.Verify with EXTERNAL content supplied and digests checked: when it accepts, the SignedData either carries no
+       content or carries exactly the external content, and EVERY SignerInfo was verified against the external content (by 13
+       its message-digest attribute is then the digest of the EXTERNAL content); without external content, against the
+       embedded content *)
+Theorem sd_verify_external_content : forall C sd ext s c,
+  sd_verify C sd (Wby ext) false = SdAccept s c ->
+  (ci_bytes (ci_raw (sd_ci sd)) = Ok None \/ ci_bytes (ci_raw (sd_ci sd)) = Ok (Some ext)) /\
+  In s (sd_sis sd) /\
+  exists certs, Forall (fun s' => exists c', si_verify C s' (Wby ext) false certs = VAccept c') (sd_sis sd).
+Proof. exact C16.VProofs.sd_verify_external_content. Qed.
+Theorem sd_verify_embedded_content : forall C sd s c,
+  sd_verify C sd Wnil false = SdAccept s c ->
+  exists b certs, ci_bytes (ci_raw (sd_ci sd)) = Ok (Some b) /\
+    Forall (fun s' => exists c', si_verify C s' (Wby b) false certs = VAccept c') (sd_sis sd).
+Proof. exact C16.VProofs.sd_verify_embedded_content. Qed.
+
+(* 21. ContentInfo.Bytes: the interpretation of the source is Model.ci_bytes, and for EVERY payload and every identifier
+       octet of the inner element — also when the payload is itself a run of complete OCTET STRING elements — Bytes() of
+       SEQUENCE { contentType, [0] { tag len payload } } is exactly payload, which is what the RFC 5652 reader finds *)
+Theorem ci_bytes_interpreted_is_ci_bytes : forall C c o, ci_bytes_m C c = Ok o <-> ci_bytes (ci_raw c) = Ok o.
+Proof. exact C16.VProofs.ci_bytes_m_ok. Qed.
+Theorem ci_bytes_is_econtent : forall ctype tag payload,
+  oid_ok ctype = true -> all_bytes ctype = true -> tag_ok tag -> all_bytes payload = true ->
+  small (enc_tlv T_SEQ (enc_tlv T_OID ctype ++ enc_tlv 160 (enc_tlv tag payload))) ->
+  let raw := enc_tlv T_SEQ (enc_tlv T_OID ctype ++ enc_tlv 160 (enc_tlv tag payload)) in
+  ci_bytes raw = Ok (Some payload) /\ spec_econtent raw = Some (Some payload).
+Proof. exact C16.VProofs.ci_bytes_is_econtent. Qed.
+
+(* ------------------------------------------------------------------ non-vacuity *)
+(* a SignerInfo whose signed attributes (content-type, message-digest) stand in NON-DER order; sha256 / rsaEncryption *)
+Definition vsample : bytes :=
+  [48; 105; 2; 1; 1; 48; 17; 48; 12; 49; 10; 48; 8; 6; 3; 85; 4; 3; 12; 1; 120; 2; 1; 9; 48; 13; 6; 9; 96; 134; 72; 1; 101; 3; 4;
+   2; 1; 5; 0; 160; 47; 48; 24; 6; 9; 42; 134; 72; 134; 247; 13; 1; 9; 3; 49; 11; 6; 9; 42; 134; 72; 134; 247; 13; 1; 7; 1; 48;
+   19; 6; 9; 42; 134; 72; 134; 247; 13; 1; 9; 4; 49; 6; 4; 4; 200; 1; 2; 3; 48; 13; 6; 9; 42; 134; 72; 134; 247; 13; 1; 1; 1;
+   5; 0; 4; 2; 190; 239].
+Definition vsample_emitted : bytes :=
+  [49; 47; 48; 24; 6; 9; 42; 134; 72; 134; 247; 13; 1; 9; 3; 49; 11; 6; 9; 42; 134; 72; 134; 247; 13; 1; 7; 1; 48; 19; 6; 9; 42;
+   134; 72; 134; 247; 13; 1; 9; 4; 49; 6; 4; 4; 200; 1; 2; 3].
+Definition vsample_sorted : bytes :=
+  [49; 47; 48; 19; 6; 9; 42; 134; 72; 134; 247; 13; 1; 9; 4; 49; 6; 4; 4; 200; 1; 2; 3; 48; 24; 6; 9; 42; 134; 72; 134; 247; 13;
+   1; 9; 3; 49; 11; 6; 9; 42; 134; 72; 134; 247; 13; 1; 7; 1].
+(* a toy instance of the crypto parameters: H prefixes 200; the signature "verifies" on exactly one digest *)
+Definition toy (good : bytes) : crypto :=
+  mkCrypto (fun _ => Some 1) (fun _ b => 200 :: b)
+           (fun _ _ _ d _ => if bytes_eqb d (200 :: good) then SigOk else SigRsaErr) (fun _ _ _ _ => SigRsaErr)
+           (fun _ => ([], 0)) (fun _ => Err 1) (fun _ => 0).
+Definition vsample_t : tlv := match read_tlv vsample with Ok (t, _) => t | _ => mkTlv 0 [] [] end.
+Definition vsample_s : sinfo := match parse_si vsample_t with Ok s => s | _ => dummy_si end.
+Definition vsample_cert : cert := mkCert (si_issuer vsample_s) (si_serial vsample_s) 7.
+Example vsample_hypotheses_hold :
+  valid vsample_t /\ t_tag vsample_t = T_SEQ /\ parse_si vsample_t = Ok vsample_s /\
+  (exists a l, si_auth vsample_s = Some (a :: l)) /\
+  spec_si_preimage (t_full vsample_t) [1; 2; 3] = Some (true, vsample_emitted) /\ vsample_emitted <> vsample_sorted.
+Proof.
+  split.
+  { destruct (read_tlv vsample) as [[t r]| |] eqn:E; try (vm_compute in E; discriminate).
+    assert (Hb : all_bytes vsample = true) by (vm_compute; reflexivity).
+    destruct (C16.Tlv.read_tlv_ok vsample t r Hb E) as (_ & Hv & _).
+    replace vsample_t with t; [exact Hv|]. unfold vsample_t. rewrite E. reflexivity. }
+  split; [vm_compute; reflexivity|]. split; [vm_compute; reflexivity|].
+  split; [vm_compute; eexists; eexists; reflexivity|]. split; [vm_compute; reflexivity|]. vm_compute. discriminate.
+Qed.
+(* signed over the bytes as emitted: accepted; signed over the sorted DER SET OF (or anything else): rejected *)
+Example vsample_signed_as_emitted_is_accepted :
+  si_verify (toy vsample_emitted) vsample_s (Wby [1; 2; 3]) false [vsample_cert] = VAccept vsample_cert.
+Proof. vm_compute. reflexivity. Qed.
+Example vsample_signed_over_sorted_set_is_rejected :
+  si_verify (toy vsample_sorted) vsample_s (Wby [1; 2; 3]) false [vsample_cert] = VReject EV_RSA.
+Proof. vm_compute. reflexivity. Qed.
+Example vsample_wrong_message_digest_is_rejected :
+  si_verify (toy vsample_emitted) vsample_s (Wby [9; 9]) false [vsample_cert] = VReject EV_NEW.
+Proof. vm_compute. reflexivity. Qed.
+Example vsample_interpreter_knows_every_construct :
+  forall skip, match si_verify (toy vsample_emitted) vsample_s (Wby [1; 2; 3]) skip [] with VReject e => e = EV_CERT | _ => False end.
+Proof. intros [|]; vm_compute; reflexivity. Qed.
+(* a payload that is itself a complete primitive OCTET STRING element (04 03 61 62 63): Bytes() returns all five octets *)
+Example segment_shaped_payload :
+  ci_bytes (enc_tlv T_SEQ (enc_tlv T_OID [42;134;72;134;247;13;1;7;1] ++ enc_tlv 160 (enc_tlv 4 [4; 3; 97; 98; 99]))) = Ok (Some [4; 3; 97; 98; 99]).
+Proof. vm_compute. reflexivity. Qed.
+Example sd_verify_knows_every_construct :
+  match parse_cms sample with
+  | Ok o => match o_sd o with
+            | Some sd => sd_verify (toy []) sd Wnil false = SdReject EV_NOATTR
+            | None => False end
+  | _ => False end.
 Proof. vm_compute. reflexivity. Qed.
